@@ -60,6 +60,13 @@ func vhLayout(layout int) []*vhPoolSpec {
 			{name: "p1", cidrs: []*net.IPNet{vhCIDR("10.0.1.0/32")}, selector: true},
 			{name: "p2", cidrs: []*net.IPNet{vhCIDR("10.0.2.0/31")}},
 		}
+	case 5: // three pools pinned to ns0, each with a single family (two IPv4, one IPv6), and an unpinned dual-stack pool
+		return []*vhPoolSpec{
+			{name: "p0", cidrs: []*net.IPNet{vhCIDR("10.0.0.0/32")}, pinnedNS: "ns0"},
+			{name: "p1", cidrs: []*net.IPNet{vhCIDR("10.0.1.0/32")}, pinnedNS: "ns0"},
+			{name: "p2", cidrs: []*net.IPNet{vhCIDR("fd00::/127")}, pinnedNS: "ns0"},
+			{name: "p3", cidrs: []*net.IPNet{vhCIDR("10.0.2.0/31"), vhCIDR("fd00:2::/127")}},
+		}
 	case 4: // block on a .255/.0 boundary, for buggy-address avoidance
 		return []*vhPoolSpec{{name: "p0", cidrs: []*net.IPNet{vhCIDR("10.0.0.254/31"), vhCIDR("10.0.1.0/31")}}}
 	}
@@ -318,7 +325,7 @@ func VerifAllocStep(layout, nsvc, op, lite int) {
 	specs := vhLayout(layout)
 	vhSymFlags(specs)
 	pools := vhPools(specs)
-	hasV6 := layout == 1
+	hasV6 := layout == 1 || layout == 5
 	a := New(func(string) {})
 	a.SetPools(pools)
 
@@ -402,7 +409,7 @@ func VerifAllocStep(layout, nsvc, op, lite int) {
 		if err == nil {
 			vhCheckAllocated(a, act, got, fam, specs, wasHeld, op == vhOpAllocate)
 			if op == vhOpAllocate && !wasHeld {
-				vhCheckPoolOrder(pre, actor, &vhSvc{name: act.name, svc: act.svc, ports: ports, sharing: sk, backend: bk}, fam, specs, a.Pool(act.name), len(got))
+				vhCheckPoolOrder(pre, actor, &vhSvc{name: act.name, svc: act.svc, ports: ports, sharing: sk, backend: bk}, fam, specs, a.Pool(act.name), len(got), len(got) > 0 && got[0].To4() != nil)
 			}
 		} else if op == vhOpAllocate && !wasHeld {
 			// allocation may fail only if no admissible pool offers an address
@@ -562,8 +569,23 @@ func vhUsable(pre []*vhSvc, actor int, cand *vhSvc, p *vhPoolSpec, addr net.IP) 
 // vhOffers: how many families (0, 1 or 2) pool p can serve for cand with family fam; 0 if p is not a
 // candidate for automatic allocation (auto-assign off or selectors do not admit the service).
 func vhOffers(pre []*vhSvc, actor int, cand *vhSvc, fam ipfamily.Family, p *vhPoolSpec) int {
+	has4, has6 := vhOffersFam(pre, actor, cand, p)
+	switch fam {
+	case ipfamily.IPv4:
+		return vr.IteInt(has4, 1, 0)
+	case ipfamily.IPv6:
+		return vr.IteInt(has6, 1, 0)
+	}
+	if *cand.svc.Spec.IPFamilyPolicy == v1.IPFamilyPolicyRequireDualStack {
+		return vr.IteInt(vr.And(has4, has6), 2, 0)
+	}
+	return vr.IteInt(vr.And(has4, has6), 2, vr.IteInt(vr.Or(has4, has6), 1, 0))
+}
+
+// vhOffersFam: does pool p offer cand a usable IPv4 / IPv6 address by automatic allocation?
+func vhOffersFam(pre []*vhSvc, actor int, cand *vhSvc, p *vhPoolSpec) (bool, bool) {
 	if !p.autoAssign || !vhAdmits(p, cand.svc) {
-		return 0
+		return false, false
 	}
 	has4, has6 := false, false
 	for _, c := range p.cidrs {
@@ -581,22 +603,18 @@ func vhOffers(pre []*vhSvc, actor int, cand *vhSvc, fam ipfamily.Family, p *vhPo
 			}
 		}
 	}
-	switch fam {
-	case ipfamily.IPv4:
-		return vr.IteInt(has4, 1, 0)
-	case ipfamily.IPv6:
-		return vr.IteInt(has6, 1, 0)
-	}
-	if *cand.svc.Spec.IPFamilyPolicy == v1.IPFamilyPolicyRequireDualStack {
-		return vr.IteInt(vr.And(has4, has6), 2, 0)
-	}
-	return vr.IteInt(vr.And(has4, has6), 2, vr.IteInt(vr.Or(has4, has6), 1, 0))
+	return has4, has6
 }
 
 // vhCheckPoolOrder (C02): pinned pools are tried before unpinned ones, by ascending priority number
 // with 0 last. Asserted: the chosen pool is pinned whenever some pinned pool offers; and no pinned
 // pool offering at least as many families as were obtained has a strictly smaller rank.
-func vhCheckPoolOrder(pre []*vhSvc, actor int, cand *vhSvc, fam ipfamily.Family, specs []*vhPoolSpec, chosen string, obtained int) {
+//
+// A PreferDualStack Service that no pool can give both families gets one address; the allocator then
+// prefers the Service's primary family over pool priority (documented in findBestPoolForService). The
+// statement does not say how family preference and priority interact, so in that case only pools offering
+// the family that was obtained are compared by priority.
+func vhCheckPoolOrder(pre []*vhSvc, actor int, cand *vhSvc, fam ipfamily.Family, specs []*vhPoolSpec, chosen string, obtained int, gotV4 bool) {
 	rank := func(p *vhPoolSpec) int {
 		if p.priority > 0 {
 			return p.priority
@@ -622,7 +640,16 @@ func vhCheckPoolOrder(pre []*vhSvc, actor int, cand *vhSvc, fam ipfamily.Family,
 		if !chPinned {
 			vr.Assert(n == 0, "an unpinned pool was used although a pool pinned to the service offers an address")
 		} else {
-			vr.Assert(vr.Not(vr.And(n >= obtained, rank(p) < rank(ch))), "a pinned pool with a better priority was skipped")
+			if fam == ipfamily.DualStack && obtained == 1 {
+				o4, o6 := vhOffersFam(pre, actor, cand, p)
+				same := o6
+				if gotV4 {
+					same = o4
+				}
+				vr.Assert(vr.Not(vr.And(vr.And(n >= obtained, same), rank(p) < rank(ch))), "a pinned pool with a better priority was skipped")
+			} else {
+				vr.Assert(vr.Not(vr.And(n >= obtained, rank(p) < rank(ch))), "a pinned pool with a better priority was skipped")
+			}
 		}
 	}
 	vr.Reach("pool order checked")
